@@ -320,3 +320,13 @@ Print Assumptions C16_status_closed_up_all.
 Theorem C16_foreign_custom_status_refuted :
   addrxlat_doc (-100) = true /\ kdump_doc (fst (addrxlat2kdump_gen false (-100))) = false.
 Proof. exact a2k_unbounded_undocumented. Qed.
+Print Assumptions C16_foreign_custom_status_refuted.
+
+(** after fixes/108 an allocation failure inside the translation crosses the
+    library boundary as the out-of-memory/system class, not as the status that
+    callers tolerating an unusable translation ignore *)
+Theorem C16_addrxlat_nomem_is_system :
+  addrxlat2kdump ADDRXLAT_ERR_NOMEM = (KDUMP_ERR_SYSTEM, true) /\
+  fst (addrxlat2kdump_gen true ADDRXLAT_ERR_NOMEM) <> KDUMP_ERR_ADDRXLAT.
+Proof. exact a2k_nomem_is_system. Qed.
+Print Assumptions C16_addrxlat_nomem_is_system.
